@@ -126,6 +126,7 @@ def run(doc, rule_fn, prop, canaries=None, cap=400):
         'canaries_absent_from_tree': absent,
         'missed': missing_canaries,
         'detected_sample': killed_keys[:40],
+        'detected_all': killed_keys if not canaries else None,
         'undetected_sample': missed_keys[:40],
         'note': 'an undetected perturbation is not a defect of ddo nor necessarily of the rules (many perturbed constructs are irrelevant to the property); '
                 'only a canary that is present and no longer detected fails the self-test',
